@@ -107,6 +107,7 @@ struct EP {
   std::function<void(const double*, Out&)> call;
   std::vector<std::string> in_names; std::vector<char> kinds;
   std::vector<std::string> out_names;          // indexed by slot
+  size_t first_special = (size_t)-1;           // bases[first_special..] are SPECIAL-GEOMETRY base calls (see special())
 };
 static std::vector<EP> g_reg;
 static void add(const char* name, const char* spec, std::vector<std::vector<double>> bases, std::function<void(const double*, Out&)> call) {
@@ -152,6 +153,25 @@ static std::vector<double> perturb(char kind, double v) {
   std::vector<double> r; for (double d : D) r.push_back(v + d * sc); return r;
 }
 
+// Far-away valid values of an argument, used IN ADDITION to the 6 local perturbations at special-geometry base calls:
+// at a degenerate configuration (two points on one meridian, a point at a pole, ...) an output such as an azimuth is
+// locally constant (0 or 180) and only flips when the argument moves far enough, so local steps would measure it as
+// independent.
+static std::vector<double> far_probes(char kind, double v) {
+  std::vector<double> r;
+  switch (kind) {
+  case 'a': r = {-80.3, -45.7, -20.1, -3.3, 4.9, 20.9, 45.2, 80.6}; break;
+  case 'o': case 'g': r = {-170.3, -120.7, -60.2, -10.9, 15.4, 75.8, 130.1, 175.6}; break;
+  case 'z': r = {-170.3, -100.7, -45.2, -3.1, 10.9, 80.4, 135.8, 175.1}; break;
+  case 'l': r = {1.3e3, 1.1e5, 1.2e6, 5.3e6, 1.57e7, 3.1e7, -2.2e6}; break;
+  case 'h': r = {-1.1e3, 13, 5.2e3, 1.3e5}; break;
+  case 'x': r = {-3.1e6, -2.3e5, -1.7e3, 1.9e3, 4.1e5, 2.7e6}; break;
+  case 'u': r = {-0.83, -0.31, 0.27, 0.71}; break;
+  default: r = {v * 0.5 + 0.137, v * 2 + 0.291, -v - 0.713}; break;
+  }
+  return r;
+}
+
 // documented exceptions to the NaN rules: (function prefix, argument or "*", what)
 // what: "work-scales" finite specials in [1e9, 1e300) are not enumerated for this argument;
 //       "skip-nan"   the NaN rules are not applied to this argument (the call must still end cleanly);
@@ -179,10 +199,14 @@ static void build_registry();      // below
 
 // one case: entry point e, base b, argument ai, special value v (named vname)
 static void run_case(const EP& e, size_t bi, size_t ai, double v, const std::string& vname, Report& rep) {
+  const bool sp = bi >= e.first_special;       // special-geometry base call
   const std::vector<double>& base = e.bases[bi];
   const std::string argn = e.in_names[ai];
   const std::string key = e.name + "|base" + std::to_string(bi) + "|" + argn + "=" + vname;
   mc::Fields F = {{"fn", e.name}, {"arg", argn}, {"value", vname}, {"class", is_int_kind(e.kinds[ai]) ? "int" : fault::value_class(v)}};
+  std::string btxt;                            // the base tuple, for messages and (special bases) for known-finding keys
+  for (size_t i = 0; i < base.size(); ++i) btxt += (i ? "," : "") + (i == ai ? std::string("*") : fmt(base[i]));
+  if (sp) { F.push_back({"geometry", "special"}); F.push_back({"base", btxt}); }
   auto FF = [&](const char* kind) { mc::Fields f = F; f.insert(f.begin(), {"kind", kind}); return f; };
   // base call
   Out ob; Thrown tb = fault::guarded([&] { e.call(base.data(), ob); });
@@ -204,22 +228,39 @@ static void run_case(const EP& e, size_t bi, size_t ai, double v, const std::str
   if (!std::isnan(v) || is_int_kind(e.kinds[ai]) || excepted(e, argn)) return;
   // NaN: measure the dependency relation for this argument, then judge every floating / string slot
   bool dep[NSLOT] = {false}; int nper = 0;
-  for (double pv : perturb(e.kinds[ai], base[ai])) {
+  std::vector<double> probes = perturb(e.kinds[ai], base[ai]);
+  if (sp) for (double pv : far_probes(e.kinds[ai], base[ai])) probes.push_back(pv);
+  for (double pv : probes) {
     std::vector<double> ip = base; ip[ai] = pv; Out op;
     Thrown tp = fault::guarded([&] { e.call(ip.data(), op); });
     if (tp.threw()) continue;
     ++nper;
-    for (int j = 0; j < NSLOT; ++j) if (!slot_same(op, ob, j)) dep[j] = true;
+    for (int j = 0; j < NSLOT; ++j) {
+      if (slot_same(op, ob, j)) continue;
+      if (sp && j < ND) {
+        // at a degenerate configuration an output that is constant there (x = 0 at the pole for every longitude) comes out as
+        // +0, -0 or 1e-10 depending on the other argument: only a change well above round-off is a dependency, and a probe
+        // whose result is not finite is no evidence
+        double a0 = ob.d[j], a1 = op.d[j];
+        if (!std::isfinite(a0) || !std::isfinite(a1)) continue;
+        if (!(std::fabs(a1 - a0) > 1e-7 * std::fmax(1.0, std::fmax(std::fabs(a0), std::fabs(a1))))) continue;
+      }
+      dep[j] = true;
+    }
   }
   if (nper == 0) { rep.fail(key + "|perturb", e.name + ": no valid perturbation of " + argn, FF("baseline")); return; }
   Out fresh;
   for (int j = 0; j < ND + NS; ++j) {
     bool used = !slot_same(ob, fresh, j);
     if (!used && slot_same(os, fresh, j)) continue;                 // slot not an output of this function
+    if (sp && j < ND && used && !std::isfinite(ob.d[j])) continue;     // a singular value at the special configuration itself: nothing to compare with
     if (j < ND && used && !std::isfinite(ob.d[j])) { rep.fail(key + "|basenan|" + slot_name(e, j), e.name + " base call gives non-finite " + slot_name(e, j), FF("baseline")); continue; }
     if (dep[j]) {
-      if (!nanlike(os, j)) { mc::Fields f = FF("nan-not-propagated"); f.push_back({"out", slot_name(e, j)}); rep.fail(key + "|dep|" + slot_name(e, j), e.name + " with " + argn + " = NaN: output " + slot_name(e, j) + " depends on " + argn + " (measured) but is " + slot_val(os, j) + " instead of NaN", f); }
+      if (!nanlike(os, j)) { mc::Fields f = FF("nan-not-propagated"); f.push_back({"out", slot_name(e, j)}); rep.fail(key + "|dep|" + slot_name(e, j), e.name + (sp ? "(" + btxt + ")" : "") + " with " + argn + " = NaN: output " + slot_name(e, j) + " depends on " + argn + " (measured) but is " + slot_val(os, j) + " instead of NaN", f); }
     } else {
+      // at a special configuration an output that is constant along the degenerate set (S12 = 0 on a meridian, x = 0 at
+      // the pole) is only accidentally independent: the "keeps its base value" rule is for base calls in general position
+      if (sp) continue;
       if (excepted(e, argn, "skip-indep")) continue;
       if (j >= ND && nanlike(os, j)) continue;    // codes depend on their inputs through step functions that 6 perturbations need not cross: a marker is accepted
       if (!slot_same(os, ob, j)) { mc::Fields f = FF("nan-leaks"); f.push_back({"out", slot_name(e, j)}); rep.fail(key + "|indep|" + slot_name(e, j), e.name + " with " + argn + " = NaN: output " + slot_name(e, j) + " does not depend on " + argn + " (measured) but changed from " + slot_val(ob, j) + " to " + slot_val(os, j), f); }
@@ -241,6 +282,8 @@ int main(int argc, char** argv) {
   { std::string s; for (auto& x : SP) s += std::string(x.name) + " "; ctx.bound("entry.specials", std::to_string(SP.size()) + " floating-point specials per argument: " + s); }
   { std::string s; for (auto x : ISP) s += std::to_string(x) + " "; ctx.bound("entry.int_specials", std::to_string(ISP.size()) + " integer specials per integer argument: " + s); }
   ctx.bound("entry.perturbations", "6 valid perturbations per argument to measure the dependency relation; 2 base calls per function (a few have 1 or 3)");
+  { size_t ns = 0, ne = 0; for (auto& e : g_reg) if (e.first_special != (size_t)-1) { ++ne; ns += e.bases.size() - e.first_special; }
+    ctx.bound("entry.special_geometry", std::to_string(ns) + " special-geometry base calls on " + std::to_string(ne) + " entry points (same / opposite meridian, equator, pole, coincident, nearly antipodal; azi 0/90/180, s12 = 0; central meridian, pole, origin; axis, equatorial plane, centre; vertex at a pole / on the antimeridian), each argument <- NaN (thorough: every special); dependency measured with the 6 local steps plus 3-8 far-away values per argument; only the rule 'dependent => NaN' is applied there"); }
   for (auto& x : exceptions()) ctx.list("documented exceptions to the NaN rules", std::string(x.fn) + " arg " + x.arg + ": " + x.what + " -- " + x.why);
   fault::Isolator iso(g_dir, "entry");
   iso.batch = 128; iso.slot_bytes = 8192;
@@ -254,8 +297,10 @@ int main(int argc, char** argv) {
       if (!ctx.take()) continue;                                       // unit = (entry point, base call, argument)
       struct Cs { size_t bi, ai; double v; std::string vname; };
       std::vector<Cs> cases;
+      const bool spb = bi >= e.first_special;      // special-geometry base: quick = NaN only, thorough = every special
+      if (spb && !T && e.kinds[ai] == 'i') continue;
       if (e.kinds[ai] == 'i') { for (long long x : ISP) if ((double)x != e.bases[bi][ai]) cases.push_back({bi, ai, (double)x, std::to_string(x)}); }
-      else for (auto& x : SP) { if (excepted(e, e.in_names[ai], "work-scales") && std::isfinite(x.v) && std::fabs(x.v) >= 1e9 && std::fabs(x.v) < 1e300) { ctx.count("skipped:work-scales"); continue; } cases.push_back({bi, ai, x.v, x.name}); }
+      else for (auto& x : SP) { if (spb && !T && !std::isnan(x.v)) continue; if (excepted(e, e.in_names[ai], "work-scales") && std::isfinite(x.v) && std::fabs(x.v) >= 1e9 && std::fabs(x.v) < 1e300) { ctx.count("skipped:work-scales"); continue; } cases.push_back({bi, ai, x.v, x.name}); }
       auto fields = [&](const Cs& c, const char* kind) { return mc::Fields{{"kind", kind}, {"family", family}, {"fn", e.name}, {"arg", e.in_names[c.ai]}, {"value", c.vname}, {"class", is_int_kind(e.kinds[c.ai]) ? "int" : fault::value_class(c.v)}}; };
       iso.skip_confirm = [&](size_t i) { return fault::matches_known(ctx, "hang", fields(cases[i], "hang")); };
       double t_unit = ctx.elapsed();
@@ -342,6 +387,10 @@ static void reg_geodesic() {
   EP_("Geodesic::Inverse", isp, inv, inverse_(GD(), a, o));
   EP_("Geodesic::Direct[exact]", dsp, dir, direct_(GE(), a, o));
   EP_("Geodesic::Inverse[exact]", isp, inv, inverse_(GE(), a, o));
+  EP_("Geodesic::Direct[sphere]", dsp, dir, static const Geodesic g(6.4e6, 0); direct_(g, a, o));
+  EP_("Geodesic::Inverse[sphere]", isp, inv, static const Geodesic g(6.4e6, 0); inverse_(g, a, o));
+  EP_("Geodesic::Direct[prolate]", dsp, dir, static const Geodesic g(6.4e6, -0.05); direct_(g, a, o));
+  EP_("Geodesic::Inverse[prolate]", isp, inv, static const Geodesic g(6.4e6, -0.05); inverse_(g, a, o));
   EP_("Geodesic::Direct(lat2,lon2)", "lat1:a lon1:o azi1:z s12:l -> lat2 lon2", dir, GD().Direct(a[0], a[1], a[2], a[3], o.d[0], o.d[1]));
   EP_("Geodesic::Inverse(s12)", "lat1:a lon1:o lat2:a lon2:o -> s12", inv, GD().Inverse(a[0], a[1], a[2], a[3], o.d[0]));
   EP_("Geodesic::Inverse(azi1,azi2)", "lat1:a lon1:o lat2:a lon2:o -> azi1 azi2", inv, GD().Inverse(a[0], a[1], a[2], a[3], o.d[0], o.d[1]));
@@ -363,6 +412,8 @@ static void reg_geodesic() {
   EP_("GeodesicExact::ArcDirect", asp, arc, arcdirect_(GX(), a, o));
   EP_("GeodesicExact::Inverse", isp, inv, inverse_(GX(), a, o));
   EPC_("GeodesicExact::Line+Position", dsp, dir, linepos_(GX(), a, o));
+  EP_("GeodesicExact::Inverse[sphere]", isp, inv, static const GeodesicExact g(6.4e6, 0); inverse_(g, a, o));
+  EP_("GeodesicExact::Inverse[prolate]", isp, inv, static const GeodesicExact g(6.4e6, -0.05); inverse_(g, a, o));
   EP_("GeodesicLineExact::Position", "s12:l -> lat2 lon2 azi2 m12 M12 M21 S12 a12", (BB{{1.5e6}, {-2.21e7}}), static const GeodesicLineExact l(GX(), 10.5, 20.25, 30.75); o.d[7] = l.Position(a[0], o.d[0], o.d[1], o.d[2], o.d[3], o.d[4], o.d[5], o.d[6]));
   EP_("GeodesicLineExact::ArcPosition", "a12:g -> lat2 lon2 azi2 s12 m12 M12 M21 S12", (BB{{13.5}, {-200.5}}), static const GeodesicLineExact l(GX(), 10.5, 20.25, 30.75); l.ArcPosition(a[0], o.d[0], o.d[1], o.d[2], o.d[3], o.d[4], o.d[5], o.d[6], o.d[7]));
   EP_("Rhumb::Direct", "lat1:a lon1:o azi12:z s12:l -> lat2 lon2 S12", dir, Rhumb::WGS84().Direct(a[0], a[1], a[2], a[3], o.d[0], o.d[1], o.d[2]));
@@ -567,4 +618,67 @@ static void reg_misc() {
   EP_("NearestNeighbor::Search", "query:r k:i maxdist:r mindist:r exhaustive:b tol:r -> d i:n i:first", (BB{{3.5, 2, 1e300, -1, 1, 0}, {8.25, 3, 4, 0.5, 0, 0.125}}), static const std::vector<double> pts = {0.5, 3.25, 7, 1.5, 9.75, 2, 2, 11}; static const NearestNeighbor<double, double, Dist1> t(pts, Dist1(), 2); std::vector<int> ind; o.d[0] = t.Search(pts, Dist1(), a[0], ind, (int)a[1], a[2], a[3], a[4] != 0, a[5]); o.i[0] = (int)ind.size(); o.i[1] = ind.empty() ? -1 : ind[0]);
 }
 
-static void build_registry() { reg_math(); reg_geodesic(); reg_proj(); reg_grid(); reg_ellipsoid(); reg_models(); reg_misc(); }
+// ---- special-geometry base calls (NaN x special geometry).  A tuple shorter than the function's arity is completed
+// with the tail of its first generic base call (masks, flags, fractions).
+static void special(std::initializer_list<const char*> names, const BB& tuples) {
+  for (const char* nm : names) {
+    bool found = false;
+    for (auto& e : g_reg) if (e.name == nm) {
+      found = true;
+      if (e.first_special == (size_t)-1) e.first_special = e.bases.size();
+      for (auto t : tuples) { for (size_t i = t.size(); i < e.kinds.size(); ++i) t.push_back(e.bases[0][i]); if (t.size() != e.kinds.size()) { fprintf(stderr, "registry error: special base arity %s\n", nm); exit(2); } e.bases.push_back(t); }
+    }
+    if (!found) { fprintf(stderr, "registry error: special(): no entry point %s\n", nm); exit(2); }
+  }
+}
+// the sphere is a degenerate ellipsoid (a12 = s12 / R, M12 = cos(a12) do not depend on the starting point at all): every
+// base call of a [sphere] entry point is a special configuration
+static void sphere_is_special() { for (auto& e : g_reg) if (e.name.find("[sphere]") != std::string::npos) e.first_special = 0; }
+static void reg_special() {
+  // inverse problems (lat1 lon1 lat2 lon2): same meridian, opposite meridians, both on the equator, a pole, coincident, nearly antipodal
+  const BB INV = {{10, 0, 30, 0}, {10.5, 20.25, -33.75, 20.25}, {10, 0, 30, 180}, {-20.5, -60, 40.25, 120}, {0, 0, 0, 30}, {0, 10, 0, -150.5},
+                  {90, 0, 30, 40}, {10, 50, -90, 20}, {10, 20, 10, 20}, {10, 0, -10, 179.5}, {0, 0, 0, 179.7}, {0, 0, 0, 180}, {0, 0, 0, 0}};
+  special({"Geodesic::Inverse", "Geodesic::Inverse[exact]", "Geodesic::Inverse[sphere]", "Geodesic::Inverse[prolate]", "Geodesic::Inverse(s12)", "Geodesic::Inverse(azi1,azi2)",
+           "Geodesic::GenInverse(mask)", "Geodesic::InverseLine+Position", "GeodesicExact::Inverse", "GeodesicExact::Inverse[sphere]", "GeodesicExact::Inverse[prolate]",
+           "Rhumb::Inverse", "Rhumb::Inverse[exact]"}, INV);
+  // direct problems / lines (lat1 lon1 azi1 s12): azi = 0, 90, 180, lat1 = +-90, 0, s12 = 0
+  const BB DIR = {{10, 20, 0, 1.5e6}, {10, 20, 90, 1.5e6}, {10, 20, 180, 1.5e6}, {90, 20, 30, 1.5e6}, {-90, 20, 30, 1.5e6}, {0, 20, 90, 1.5e6}, {0, 20, 0, 1.5e6}, {10.5, 20.25, 30.75, 0}, {0, 0, 90, 0}};
+  special({"Geodesic::Direct", "Geodesic::Direct[exact]", "Geodesic::Direct[sphere]", "Geodesic::Direct[prolate]", "Geodesic::Direct(lat2,lon2)", "Geodesic::Line+Position",
+           "Geodesic::DirectLine+Position", "GeodesicExact::Direct", "GeodesicExact::Line+Position", "Rhumb::Direct", "Rhumb::Direct[exact]", "Rhumb::GenDirect(mask)", "Rhumb::Line+Position"}, DIR);
+  const BB ARC = {{10, 20, 0, 13.5}, {10, 20, 90, 13.5}, {10, 20, 180, 13.5}, {90, 20, 30, 13.5}, {-90, 20, 30, 13.5}, {0, 20, 90, 13.5}, {10.5, 20.25, 30.75, 0}, {10.5, 20.25, 30.75, 90}, {10.5, 20.25, 30.75, 180}};
+  special({"Geodesic::ArcDirect", "GeodesicExact::ArcDirect", "Geodesic::ArcDirectLine+ArcPosition"}, ARC);
+  special({"GeodesicLine::Position", "GeodesicLineExact::Position", "RhumbLine::Position"}, {{0}});
+  special({"GeodesicLine::ArcPosition", "GeodesicLineExact::ArcPosition"}, {{0}, {90}, {180}});
+  // projections (lon0 lat lon): on the central meridian, at the poles, at the origin / on the equator
+  const BB PF = {{9, 40.5, 9}, {9, 90, 10.25}, {9, -90, 10.25}, {9, 0, 9}, {9, 0, 10.25}, {0, 40.5, 180}};
+  special({"TransverseMercator::Forward", "TransverseMercator::Forward[exact]", "TransverseMercatorExact::Forward", "TransverseMercatorExact::Forward[extendp]",
+           "LambertConformalConic::Forward", "LambertConformalConic::Forward[Mercator]", "LambertConformalConic::Forward[polar]",
+           "AlbersEqualArea::Forward", "AlbersEqualArea::Forward[cylindrical]", "AlbersEqualArea::Forward[azimuthal-north]"}, PF);
+  const BB PR = {{9, 0, 4.5e6}, {9, 0, 0}, {9, 1.2e5, 0}};
+  special({"TransverseMercator::Reverse", "TransverseMercator::Reverse[exact]", "TransverseMercatorExact::Reverse", "TransverseMercatorExact::Reverse[extendp]",
+           "LambertConformalConic::Reverse", "LambertConformalConic::Reverse[Mercator]", "AlbersEqualArea::Reverse", "AlbersEqualArea::Reverse[cylindrical]", "AlbersEqualArea::Reverse[azimuthal-south]"}, PR);
+  special({"PolarStereographic::Forward"}, {{1, 90, 10.25}, {1, 80.5, 0}, {0, -90, 0}, {1, 80.5, 180}, {0, -80.5, 90}});
+  special({"PolarStereographic::Reverse"}, {{1, 0, 0}, {1, 0, -4.5e5}, {1, 1.2e5, 0}, {0, 0, 0}});
+  special({"AzimuthalEquidistant::Forward", "Gnomonic::Forward"}, {{36.5, 3.25, 36.5, 3.25}, {36.5, 3.25, 50, 3.25}, {90, 0, 50, 10}, {0, 0, 0, 30}, {-90, 0, -60, 40}});
+  special({"AzimuthalEquidistant::Reverse", "Gnomonic::Reverse"}, {{36.5, 3.25, 0, 0}, {36.5, 3.25, 0, 1e5}, {36.5, 3.25, 1e5, 0}, {90, 0, 1e5, 1e5}});
+  special({"CassiniSoldner::Forward"}, {{36.5, 3.25}, {50, 3.25}, {0, 3.25}, {90, 10}});
+  special({"CassiniSoldner::Reverse"}, {{0, 0}, {0, 1e5}, {1e5, 0}});
+  special({"UTMUPS::Forward"}, {{0, 9}, {40.5, 9}, {90, 0}, {-90, 0}, {84, 0}, {0, 0}, {-80, 177}});
+  // geocentric: on the axis, in the equatorial plane, at the centre
+  special({"Geocentric::Reverse", "Geocentric::Reverse(M)", "Geocentric::Reverse[prolate]"}, {{0, 0, 6.4e6}, {0, 0, -6.3e6}, {4.2e6, 1.1e6, 0}, {0, 0, 0}, {6378137, 0, 0}, {0, 6378137, 0}, {1e-3, 0, 1e-3}});
+  special({"Geocentric::Forward", "Geocentric::Forward(M)"}, {{90, 0, 0}, {0, 0, 0}, {-90, 10, 100}, {0, 180, 0}});
+  special({"LocalCartesian::Forward"}, {{36.5, 3.25, 100}, {90, 0, 0}, {-36.5, -176.75, 0}});
+  special({"LocalCartesian::Reverse"}, {{0, 0, 0}, {0, 0, 1e4}, {0, 0, -6.4e6}});
+  // polygons: the third vertex at a pole, on the antimeridian, on the equator, equal to the previous vertex
+  special({"PolygonArea::AddPoint+Compute", "PolygonArea::TestPoint", "PolygonAreaExact::AddPoint+Compute", "PolygonAreaRhumb::AddPoint+Compute", "PolygonArea::AddPoint+Compute[polyline]"},
+          {{90, 0}, {-90, 50}, {20, 180}, {20, -180}, {0, 40}, {-5.25, 60.5}, {10.5, 20.25}});
+  special({"PolygonArea::AddEdge+Compute", "PolygonArea::TestEdge"}, {{0, 1e6}, {90, 1e6}, {180, 2e6}, {30.75, 0}});
+  // latitude functions at the equator and the poles; angle functions at the quadrant boundaries
+  special({"Ellipsoid::ParametricLatitude", "Ellipsoid::GeocentricLatitude", "Ellipsoid::RectifyingLatitude", "Ellipsoid::AuthalicLatitude", "Ellipsoid::ConformalLatitude", "Ellipsoid::IsometricLatitude",
+           "Ellipsoid::CircleRadius", "Ellipsoid::CircleHeight", "Ellipsoid::MeridianDistance", "Ellipsoid::MeridionalCurvatureRadius", "Ellipsoid::TransverseCurvatureRadius"}, {{0}, {90}, {-90}});
+  special({"Math::sind", "Math::cosd", "Math::tand", "Math::sincosd", "Math::AngNormalize", "Math::AngRound", "Math::LatFix"}, {{0}, {90}, {-90}, {180}});
+  special({"Math::atan2d"}, {{0, 1}, {0, -1}, {1, 0}, {0, 0}});
+  special({"Math::AngDiff(x,y)"}, {{0, 180}, {-180, 180}, {10, 10}});
+}
+
+static void build_registry() { reg_math(); reg_geodesic(); reg_proj(); reg_grid(); reg_ellipsoid(); reg_models(); reg_misc(); reg_special(); sphere_is_special(); }
